@@ -96,7 +96,11 @@ class Run:
             ev["coverage"]["notes"] = self.notes[:40]
         if self.known_hits:
             ev["coverage"]["known_findings_reproduced"] = [t for _, t in self.known_hits]
-        with open(os.path.join(EVID, self.prop + ".json"), "w") as f:
+        if os.environ.get("VERIF_REPLAY_RUN"):
+            path = os.path.join(EVID, self.prop + ".replay.json")
+        else:
+            path = os.path.join(EVID, self.prop + ".json")
+        with open(path, "w") as f:
             json.dump(ev, f, indent=1)
         if self.violations:
             seen = set()
